@@ -357,6 +357,9 @@ func (SimpleColumn) readPred(scanner *bufio.Scanner, p ast.PredicateSym, numFact
 				continue
 			}
 			text := scanner.Text()
+			if text == "" {
+				return fmt.Errorf("empty line for pred %v column %d fact %d: %w", p, j, i, ErrCouldNotRead)
+			}
 			if text[0] == '/' {
 				var err error
 				text, err = percentUnescape(text)
